@@ -24,7 +24,8 @@ pub struct Job {
 #[derive(Clone, Debug)]
 pub struct Case {
     pub bits: u64,
-    /// 0 = default breaks, 1 = force positional (breaks +-2000), 2 = force exponent notation (breaks +-1)
+    /// 0 = default breaks, 1 = force positional (breaks +-2000), 2 = force exponent notation (breaks +-1),
+    /// 3 / 4 = the library's `from_radix` option presets (write and parse) with default breaks / breaks +-1
     pub notation: u8,
     pub trim: bool,
 }
@@ -33,19 +34,42 @@ pub fn case_json(j: &Job, c: &Case) -> Value {
     json!({"format": cat().entries[j.entry].name, "type": FLOAT_NAMES[j.ty], "bits": format!("{:#x}", c.bits), "notation": c.notation, "trim": c.trim})
 }
 
+/// the library's own option presets for a radix apply to plain-radix formats only
+fn preset(m: &vcore::fmodel::FormatModel, c: &Case) -> bool {
+    c.notation >= 3 && cfg!(feature = "power-of-two") && m.mantissa_radix() == m.exponent_base() && m.mantissa_radix() == m.exponent_radix()
+}
+
 pub fn write_opts(m: &vcore::fmodel::FormatModel, c: &Case) -> lexical_core::WriteFloatOptions {
-    let mut b = lexical_core::WriteFloatOptions::builder().exponent(exp_char_for(m)).trim_floats(c.trim);
+    let mut b = lexical_core::WriteFloatOptions::builder().exponent(exp_char_for(m));
+    #[cfg(feature = "power-of-two")]
+    if preset(m, c) {
+        // notation 3 / 4: WriteFloatOptions::from_radix, the library's choice of exponent character
+        b = lexical_core::WriteFloatOptions::from_radix(m.mantissa_radix() as u8).rebuild();
+    }
+    b = b.trim_floats(c.trim);
     match c.notation {
         1 => {
             b = b.positive_exponent_break(NonZeroI32::new(2000)).negative_exponent_break(NonZeroI32::new(-2000));
         },
-        2 => {
+        2 | 4 => {
             b = b.positive_exponent_break(NonZeroI32::new(1)).negative_exponent_break(NonZeroI32::new(-1));
         },
         _ => {},
     }
     b.build_unchecked()
 }
+
+/// parse options matching `write_opts`
+pub fn parse_opts(m: &vcore::fmodel::FormatModel, c: &Case, ec: u8) -> lexical_core::ParseFloatOptions {
+    #[cfg(feature = "power-of-two")]
+    if preset(m, c) {
+        return lexical_core::ParseFloatOptions::from_radix(m.mantissa_radix() as u8);
+    }
+    let _ = (m, c);
+    lexical_core::ParseFloatOptions::builder().exponent(ec).build_unchecked()
+}
+
+const NOTATION_NAMES: [&str; 5] = ["default", "positional", "exponent", "from_radix presets", "from_radix presets + exponent"];
 
 /// Write through the catalogue entry into a buffer of exactly the documented size.
 pub fn do_write(entry: usize, ty: usize, bits: u64, opts: &lexical_core::WriteFloatOptions) -> Result<Vec<u8>, String> {
@@ -93,7 +117,7 @@ fn bits_strategy(k: FloatKind, radix: u32) -> BoxedStrategy<u64> {
 }
 
 fn case_strategy(k: FloatKind, radix: u32) -> BoxedStrategy<Case> {
-    (bits_strategy(k, radix), 0u8..3, prop_oneof![3 => Just(false), 1 => Just(true)], any::<bool>())
+    (bits_strategy(k, radix), prop_oneof![3 => 0u8..3, 1 => 3u8..5], prop_oneof![3 => Just(false), 1 => Just(true)], any::<bool>())
         .prop_map(move |(mag, notation, trim, neg)| Case { bits: if neg { mag | k.sign_mask() } else { mag }, notation, trim })
         .boxed()
 }
@@ -108,11 +132,11 @@ pub fn check_pow2(j: &Job, c: &Case, l: &mut Local) -> CaseResult {
     let m = &cat().models[j.entry];
     let k = kind_of(j.ty);
     let rx = m.radices();
-    let ec = exp_char_for(m);
     let opts = write_opts(m, c);
+    let ec = opts.exponent();
     l.eval(1);
     let mag = k.abs(c.bits);
-    let desc = |what: String| Fail::new(format!("{} {} [{}] write(bits {:#x}, notation {}, trim {}): {}", FLOAT_NAMES[j.ty], e.name, m.describe(), c.bits, ["default", "positional", "exponent"][c.notation as usize], c.trim, what));
+    let desc = |what: String| Fail::new(format!("{} {} [{}] write(bits {:#x}, notation {}, trim {}): {}", FLOAT_NAMES[j.ty], e.name, m.describe(), c.bits, NOTATION_NAMES[(c.notation as usize).min(4)], c.trim, what));
     let out = match do_write(j.entry, j.ty, c.bits, &opts) {
         Ok(o) => o,
         Err(p) => return Err(desc(format!("failed: {p}"))),
@@ -146,7 +170,7 @@ pub fn check_pow2(j: &Job, c: &Case, l: &mut Local) -> CaseResult {
     }
     // re-parse in the same format
     if let Some((pf, _)) = e.pf[j.ty] {
-        let po = lexical_core::ParseFloatOptions::builder().exponent(ec).build_unchecked();
+        let po = parse_opts(m, c, ec);
         let back = float_call(pf, &out, &po, k);
         if back != POut::Ok(c.bits as u128, out.len()) {
             return Err(desc(format!("output {:?} parses back to {} in the same format", show(&out), back.show())));
@@ -160,11 +184,11 @@ pub fn check_generic(j: &Job, c: &Case, l: &mut Local) -> CaseResult {
     let m = &cat().models[j.entry];
     let k = kind_of(j.ty);
     let rx = m.radices();
-    let ec = exp_char_for(m);
     let opts = write_opts(m, c);
+    let ec = opts.exponent();
     l.eval(1);
     let mag = k.abs(c.bits);
-    let desc = |what: String| Fail::new(format!("{} {} [{}] write(bits {:#x} ~ {:e}, notation {}, trim {}): {}", FLOAT_NAMES[j.ty], e.name, m.describe(), c.bits, if k.p == 53 { f64::from_bits(c.bits) } else { f32::from_bits(c.bits as u32) as f64 }, ["default", "positional", "exponent"][c.notation as usize], c.trim, what));
+    let desc = |what: String| Fail::new(format!("{} {} [{}] write(bits {:#x} ~ {:e}, notation {}, trim {}): {}", FLOAT_NAMES[j.ty], e.name, m.describe(), c.bits, if k.p == 53 { f64::from_bits(c.bits) } else { f32::from_bits(c.bits as u32) as f64 }, NOTATION_NAMES[(c.notation as usize).min(4)], c.trim, what));
     let out = match do_write(j.entry, j.ty, c.bits, &opts) {
         Ok(o) => o,
         Err(p) => return Err(desc(format!("failed: {p}"))),
@@ -179,7 +203,7 @@ pub fn check_generic(j: &Job, c: &Case, l: &mut Local) -> CaseResult {
     }
     // (2) accepted by the parser of the same format
     if let Some((pf, _)) = e.pf[j.ty] {
-        let po = lexical_core::ParseFloatOptions::builder().exponent(ec).build_unchecked();
+        let po = parse_opts(m, c, ec);
         let back = float_call(pf, &out, &po, k);
         if !back.is_ok() {
             return Err(desc(format!("output {:?} is rejected by the parser of the same format: {}", show(&out), back.show())));
